@@ -60,6 +60,9 @@ func (g *Gen) Stream() (string, *Val, string) {
 	case 2:
 		cur = sid{0, 1}
 	}
+	if cur.ms == 0 && cur.seq == 0 {
+		cur.seq = 1 // 0-0 is not a valid entry id
+	}
 	type live struct {
 		id sid
 	}
